@@ -310,6 +310,47 @@ class Framing(Harness):
         return label
 
 
+class FramingChunked(Harness):
+    """two emitted packets back to back, delivered with a TCP segment boundary at position `cut` of the first packet (every position incl. inside the
+    padding): both are read back unchanged - the reader must wait for a packet's padding before the next packet starts."""
+    prop, ob = PROP, 'O5'
+    width = 64
+
+    def __init__(self, n, cut):
+        self.n, self.cut = n, cut
+        self.name = 'framing-chunked-%d-cut%d' % (n, cut)
+
+    def params(self):
+        return {'n': self.n, 'cut': self.cut}
+
+    def inputs(self):
+        return {'p1': zx.fresh_bytes('p', self.n), 'p2': zx.fresh_bytes('q', 3)}
+
+    def run(self, M, inp):
+        s, ss, out = stubs.ssh_socket(M, [])
+        s.write(inp['p1'])
+        s.send_packet()
+        s.write(inp['p2'])
+        s.send_packet()
+        w1, w2 = ss.sent[0], ss.sent[1]
+        k = min(self.cut, len(w1))
+        chunks = [c for c in (w1[:k], w1[k:], w2) if len(c)]
+        s2, ss2, out2 = stubs.ssh_socket(M, chunks)
+        import io, contextlib
+        with contextlib.redirect_stdout(io.StringIO()):
+            a = guarded(s2.read_packet, 2)
+            b = guarded(s2.read_packet, 2)
+        return {'a': a, 'b': b, 'len1': len(w1)}
+
+    def check(self, inp, obs):
+        a, b = obs['a'], obs['b']
+        ok = not isinstance(a, Exc) and not isinstance(b, Exc) and isinstance(a, tuple) and isinstance(b, tuple)
+        yield 'both-read', ok
+        if ok:
+            yield 'first-read-back', s_and(a[0] == inp['p1'][0], a[1] == inp['p1'][1:])
+            yield 'second-read-back', s_and(b[0] == inp['p2'][0], b[1] == inp['p2'][1:])
+
+
 def crc32_ref(data):
     """bitwise reference CRC-32 (poly 0xEDB88320 reflected, init 0, no final xor) - the SSH-1 variant"""
     crc = 0
@@ -550,6 +591,12 @@ def tasks(tier):
         T.append(Pkm(eb, mb))
     for n in (list(range(1, 18)) + [31, 32, 33] if tier == 'quick' else range(1, 65)):
         T.append(Framing(n))
+    for n in ((1, 3, 4, 11) if tier == 'quick' else (1, 2, 3, 4, 5, 10, 11, 12, 19)):
+        total = 16 if n <= 6 else (24 if n <= 14 else 32)
+        for cut in range(1, total + 1):
+            if tier == 'quick' and cut not in (4, 5, 5 + n - 1, 5 + n, 5 + n + 1, total - 1, total):
+                continue
+            T.append(FramingChunked(n, cut))
     for n in ((0, 1) if tier == 'quick' else (0, 1, 2)):
         T.append(Crc(n))
     T.append(CrcStep())
@@ -572,6 +619,8 @@ def harness_by_name(name, params):
         return KexInit(tuple(tuple(s) for s in params['shape']))
     if cls == 'pkm':
         return Pkm(params['ebits'], params['mbits'])
+    if name.split(':')[1].startswith('framing-chunked'):
+        return FramingChunked(params['n'], params['cut'])
     if cls == 'framing':
         return Framing(params['n'])
     if name.endswith('crc-step-arbitrary-state'):
